@@ -108,6 +108,8 @@ ScanFails(j, P) ==
        ELSE IF \E e \in extraI : UnderExcluded(c, e[1]) \/ UnderExcluded(c, e[2])
             THEN {<<"C08", "import-of-or-by-an-excluded-entry", extraI>>}
        ELSE IF \E e \in extraI : e[2] \notin exp.internal THEN {<<"C10", "import-of-unexpected-external-module", extraI>>}
+       ELSE IF ~c.ext /\ \E e \in extraI : ~Anc(Trunc(c.mpath, IF c.limit = 0 THEN Len(c.mpath) ELSE KeepLen(c)), e[2])
+            THEN {<<"C10", "import-to-a-module-outside-module-path-although-externals-excluded", extraI>>}
        ELSE {<<"C02", "edge-without-import-statement", extraI>>})
 
 ScanStep ==
